@@ -22,7 +22,6 @@ Let A := Hr * U. Let UdB := Ud * B. Let VH := V * Hs.
 Hypothesis oW : ord 1 W. Hypothesis oV : ord 1 V.
 Hypothesis hWh : adj W == W. Hypothesis hVa : adj V == - V.
 Hypothesis hW : W == - half (Ud * U).
-Hypothesis hYadj : Yadj == half (adj X + X).
 Hypothesis hV : V == - Rp (sylv (Yadj - VH - adj VH)).
 Hypothesis hX : X == B + Hr + A.
 Hypothesis hB : B == Sel (- half (UdB - adj UdB + A + adj A)) + Sel (VH + adj VH) - Rp UdB.
@@ -97,8 +96,10 @@ Proof.
   assert (E3: K + K + (Q + adj Q) - (Q + adj Q) == K + K) by non_commutative_ring.
   rewrite E3. apply half_twice.
 Qed.
+(* first of the two facts about Yadj that depend on the wiring (general / two-block) *)
+Hypothesis hSY : Sel Yadj == Sel (VH + adj VH).
 Lemma SYadj : Sel Yadj == Sel (VH + adj VH).
-Proof. rewrite hYadj. apply SXherm. Qed.
+Proof. exact hSY. Qed.
 
 (* Step 1: hermitian part *)
 Lemma commVH0 : comm V H0 == Rp Yadj - Rp (comm V Hs).
@@ -155,40 +156,8 @@ Proof.
     rewrite E1, unit'. non_commutative_ring. }
   rewrite E, adj_Xh. unfold Xh, comm. non_commutative_ring.
 Qed.
-Let D := X - Xh.
-Lemma X_split : X + X == (adj X + X) + (X - adj X). Proof. non_commutative_ring. Qed.
-Lemma D_anti : adj D == - D.
-Proof.
-  (* D + D = (X - adj X) - comm (W+W) HS, both antihermitian *)
-  assert (E: D + D == (X - adj X) - comm (W + W) HS).
-  { unfold D. assert (E0: Xh + Xh == comm (W+W) HS + (Yadj + Yadj)).
-    { rewrite <- Y_is_comm. unfold Xh, comm, U. non_commutative_ring. }
-    assert (E1: X - Xh + (X - Xh) == (X + X) - (Xh + Xh)) by non_commutative_ring.
-    rewrite E1, E0, X_split. rewrite hYadj at 1 2. rewrite half_dbl. non_commutative_ring. }
-  assert (Ea: adj (D + D) == - (D + D)).
-  { rewrite E, adj_sub, adj_sub, adj_inv.
-    assert (Ec: adj (comm (W+W) HS) == - comm (W+W) HS).
-    { unfold comm. rewrite adj_sub, !adj_mul, HS_h, adj_add, hWh. non_commutative_ring. }
-    rewrite Ec. non_commutative_ring. }
-  rewrite <- (half_twice D) at 1. rewrite half_adj, Ea, half_opp, half_twice. reflexivity.
-Qed.
-Theorem X_is_commutator : X == comm U HS.
-Proof.
-  assert (E: D + D == - (Ud * D) + adj D * U).
-  { assert (E': D + D == (X - adj X) - comm (W + W) HS).
-    { unfold D. assert (E0: Xh + Xh == comm (W+W) HS + (Yadj + Yadj)).
-      { rewrite <- Y_is_comm. unfold Xh, comm, U. non_commutative_ring. }
-      assert (E1: X - Xh + (X - Xh) == (X + X) - (Xh + Xh)) by non_commutative_ring.
-      rewrite E1, E0, X_split. rewrite hYadj at 1 2. rewrite half_dbl. non_commutative_ring. }
-    rewrite E', twoZ, twoZh. unfold D. rewrite adj_sub. non_commutative_ring. }
-  assert (D0: D == 0).
-  { apply contr. rewrite D_anti in E.
-    rewrite <- (half_twice D) at 1. rewrite E.
-    assert (E2: - (Ud * D) + - D * U == - (Ud * D + D * U)) by non_commutative_ring.
-    rewrite E2, half_opp. reflexivity. }
-  assert (E3: X == D + Xh) by (unfold D; non_commutative_ring).
-  rewrite E3, D0. fold Xh. non_commutative_ring.
-Qed.
+(* second fact: the claim X = [U', H_0 + H'_S], proved per wiring *)
+Hypothesis hXc : X == comm U HS.
 
 (* Step 3: similarity *)
 Let Htot := (1 + Ud) * (HS + Hr) * (1 + U).
@@ -196,17 +165,17 @@ Lemma Htot_eq : Htot == HS - B - UdB.
 Proof.
   assert (E: Htot == HS + (Ud + U + Ud*U) * HS - comm U HS - Ud * comm U HS + (1+Ud)*Hr*(1+U))
     by (unfold Htot, comm; non_commutative_ring).
-  rewrite E, unit', <- X_is_commutator. rewrite hX at 1 2.
+  rewrite E, unit', <- hXc. rewrite hX at 1 2.
   assert (E2: (1 + Ud) * Hr * (1 + U) == Hr + A + Ud*Hr + Ud * A) by (unfold A; non_commutative_ring).
   rewrite E2. unfold UdB, A. non_commutative_ring.
 Qed.
-Theorem eliminated : Rp Htot == 0.
+Theorem eliminated_c : Rp Htot == 0.
 Proof.
   rewrite Htot_eq. unfold Rp at 1. rewrite !Sel_sub. 
   assert (E: HS - B - UdB - (Sel HS - Sel B - Sel UdB) == (HS - Sel HS) - Rp B - Rp UdB) by (unfold Rp; non_commutative_ring).
   rewrite E, RB. unfold HS. rewrite Sel_add, H0_S, Hs_S. non_commutative_ring.
 Qed.
-Theorem kept : Sel Htot == Ht.
+Theorem kept_c : Sel Htot == Ht.
 Proof.
   rewrite Htot_eq, hHt, !Sel_sub, SB. unfold HS. rewrite !Sel_add, H0_S, Hs_S.
   rewrite ?Sel_sub, ?Sel_half, ?Sel_add, ?Sel_adj, SYadj, ?Hs_S. fold P Q.
@@ -230,17 +199,98 @@ Proof.
                == - (half (Ud * comm W V + comm W V * U) + half (Ud * comm W V + comm W V * U))) by non_commutative_ring.
   rewrite E4, half_dbl. unfold comm, Ud, U. non_commutative_ring.
 Qed.
-Theorem unitary_r : (1 + U) * (1 + Ud) == 1.
+Theorem unitary_r_c : (1 + U) * (1 + Ud) == 1.
 Proof.
   assert (E : (1 + U) * (1 + Ud) == (1 + Ud) * (1 + U) - (comm W V + comm W V)) by (unfold comm, U, Ud; non_commutative_ring).
   rewrite E, unitary, WV_comm. non_commutative_ring.
 Qed.
-Theorem gauge : Sel V == 0.
+Theorem gauge_c : Sel V == 0.
 Proof. exact SV. Qed.
-Theorem Htot_herm : adj Htot == Htot.
+Theorem Htot_herm_c : adj Htot == Htot.
 Proof.
   unfold Htot. rewrite !adj_mul, !adj_add, adj_one, Ud_adj, adj_U, HS_h, Hr_h. non_commutative_ring.
 Qed.
-Theorem Ht_herm : adj Ht == Ht.
-Proof. rewrite <- kept, <- Sel_adj, Htot_herm. reflexivity. Qed.
+Theorem Ht_herm_c : adj Ht == Ht.
+Proof. rewrite <- kept_c, <- Sel_adj, Htot_herm_c. reflexivity. Qed.
 End Main.
+
+(** General wiring: Yadj is the Hermitian part of X. *)
+Section GeneralY.
+Context {T : Type} `{Rg : Ring T} {BA : BlockAlg T}.
+Variables H0 Hs Hr : T.
+Hypothesis H0_S : Sel H0 == H0.  Hypothesis Hs_S : Sel Hs == Hs.  Hypothesis Hr_S : Sel Hr == 0.
+Hypothesis H0_h : adj H0 == H0. Hypothesis Hs_h : adj Hs == Hs. Hypothesis Hr_h : adj Hr == Hr.
+Hypothesis S_adH0 : forall x, Sel (comm H0 x) == comm H0 (Sel x).
+Variable sylv : T -> T.
+Context {sylv_P : Proper (_==_ ==> _==_) sylv}.
+Hypothesis sylv_spec : forall y, Rp (comm H0 (sylv y)) == Rp y.
+Variables W V X B Yadj Ht : T.
+Let U := W + V.  Let Ud := W - V.
+Let A := Hr * U. Let UdB := Ud * B. Let VH := V * Hs.
+Hypothesis oW : ord 1 W. Hypothesis oV : ord 1 V.
+Hypothesis hWh : adj W == W. Hypothesis hVa : adj V == - V.
+Hypothesis hW : W == - half (Ud * U).
+Hypothesis hYadj : Yadj == half (adj X + X).
+Hypothesis hV : V == - Rp (sylv (Yadj - VH - adj VH)).
+Hypothesis hX : X == B + Hr + A.
+Hypothesis hB : B == Sel (- half (UdB - adj UdB + A + adj A)) + Sel (VH + adj VH) - Rp UdB.
+Hypothesis hHt : Ht == H0 + Sel (Hs + half (A + adj A) - half (UdB + adj UdB) - Yadj).
+Let HS := H0 + Hs.
+
+Lemma gen_hSY : Sel Yadj == Sel (VH + adj VH).
+Proof. rewrite hYadj. eapply SXherm; [exact Hr_S | exact hX | exact hB]. Qed.
+
+Ltac gfacts := first [exact H0_S | exact Hs_S | exact Hr_S | exact H0_h | exact Hs_h | exact Hr_h | exact S_adH0
+  | exact sylv_spec | exact oW | exact oV | exact hWh | exact hVa | exact hW | exact hV | exact hX | exact hB
+  | exact gen_hSY | exact sylv_P ].
+
+Let Xh := comm U HS.
+Let D := X - Xh.
+Lemma g_Y_is_comm : comm V HS == Yadj. Proof. eapply Y_is_comm. all: try gfacts. Qed.
+Lemma g_twoZ : X - adj X == - (Ud * X) + adj X * U. Proof. eapply twoZ with (Hs:=Hs) (Hr:=Hr) (B:=B). all: try gfacts. Qed.
+Lemma g_twoZh : comm (W + W) HS == - (Ud * Xh) + adj Xh * U. Proof. eapply twoZh. all: try gfacts. Qed.
+Lemma g_HS_h : adj HS == HS. Proof. unfold HS. rewrite adj_add, H0_h, Hs_h. reflexivity. Qed.
+Lemma X_split : X + X == (adj X + X) + (X - adj X). Proof. non_commutative_ring. Qed.
+Lemma DD : D + D == (X - adj X) - comm (W + W) HS.
+Proof.
+  unfold D. assert (E0: Xh + Xh == comm (W+W) HS + (Yadj + Yadj)).
+  { rewrite <- g_Y_is_comm. unfold Xh, comm, U. non_commutative_ring. }
+  assert (E1: X - Xh + (X - Xh) == (X + X) - (Xh + Xh)) by non_commutative_ring.
+  rewrite E1, E0, X_split. rewrite hYadj at 1 2. rewrite half_dbl. non_commutative_ring.
+Qed.
+Lemma D_anti : adj D == - D.
+Proof.
+  assert (Ea: adj (D + D) == - (D + D)).
+  { rewrite DD, adj_sub, adj_sub, adj_inv.
+    assert (Ec: adj (comm (W+W) HS) == - comm (W+W) HS).
+    { unfold comm. rewrite adj_sub, !adj_mul, g_HS_h, adj_add, hWh. non_commutative_ring. }
+    rewrite Ec. non_commutative_ring. }
+  rewrite <- (half_twice D) at 1. rewrite half_adj, Ea, half_opp, half_twice. reflexivity.
+Qed.
+Theorem X_is_commutator : X == comm U HS.
+Proof.
+  assert (E: D + D == - (Ud * D) + adj D * U).
+  { rewrite DD, g_twoZ, g_twoZh. unfold D. rewrite adj_sub. non_commutative_ring. }
+  assert (D0: D == 0).
+  { assert (o1 : ord 1 Ud) by (apply ord_sub; assumption).
+    assert (o2 : ord 1 U) by (apply ord_add; assumption).
+    assert (Eq : D == - half (Ud * D + D * U)).
+    { rewrite D_anti in E.
+      rewrite <- (half_twice D) at 1. rewrite E.
+      assert (E2: - (Ud * D) + - D * U == - (Ud * D + D * U)) by non_commutative_ring.
+      rewrite E2, half_opp. reflexivity. }
+    exact (contraction _ _ _ o1 o2 Eq). }
+  assert (E3: X == D + Xh) by (unfold D; non_commutative_ring).
+  rewrite E3, D0. fold Xh. non_commutative_ring.
+Qed.
+
+Ltac gfacts2 := first [exact X_is_commutator | exact hHt | gfacts].
+Theorem eliminated : Rp ((1 + Ud) * (HS + Hr) * (1 + U)) == 0.
+Proof. eapply eliminated_c. all: try gfacts2. Qed.
+Theorem kept : Sel ((1 + Ud) * (HS + Hr) * (1 + U)) == Ht.
+Proof. eapply kept_c. all: try gfacts2. Qed.
+Theorem unitary_r : (1 + U) * (1 + Ud) == 1.
+Proof. eapply unitary_r_c. all: try gfacts2. Qed.
+Theorem Ht_herm : adj Ht == Ht.
+Proof. rewrite <- kept, <- Sel_adj. apply am_P. eapply Htot_herm_c. all: try gfacts2. Qed.
+End GeneralY.
